@@ -11,17 +11,17 @@ import _modgen as G   # noqa: E402
 PROPERTY = 'C02'
 
 RULE = (
-    'per module: every corpus valid number in many presentations (as written, compact form, case variants, '
+    'per module: every corpus valid number in many presentations (budget scaled down for modules whose validate is very expensive, see _modgen.budget_scale; as written, compact form, case variants, '
     'surrounding whitespace incl. \\n and exotic spaces, country/format prefixes added/stripped/lower-cased/'
     'followed by newline, every ASCII separator and whitespace character inserted at every position, every key '
     'of stdnum.util._char_map inserted at every position and substituted for its ASCII equivalent, whole-number '
-    'look-alike respelling, second-order decorations of accepted presentations, common.mutations) x every '
+    'look-alike respelling, separators/whitespace REPLACING a character (optionally with one re-randomised digit), second-order decorations of accepted presentations, common.mutations) x every '
     'keyword option set of validate.  For each accepted x (v = validate(x, **o) returned a str): '
     'validate(v, **o) must return exactly v, and v == v.strip().  ' + G.NONTRIVIAL_RULE)
 
 PARAMS = {
-    'quick': dict(full=0, dense=5, light=60, mutations=3, double=40),
-    'thorough': dict(full=14, dense=50, light=400, mutations=10, double=600),
+    'quick': dict(full=0, dense=5, light=60, mutations=3, double=8, sepsubst=3, sepsubst_rand=2),
+    'thorough': dict(full=14, dense=50, light=400, mutations=10, double=100, sepsubst=25, sepsubst_rand=8),
 }
 EXPECT = 'validate(v, **o) == v and v == v.strip() for v = validate(x, **o)'
 
@@ -49,8 +49,9 @@ def _check_value(mod, rf, v, kw):
 
 def _worker(task):
     modname, part, nparts, seed, tier = task
-    P = PARAMS[tier]
     mod = common.module(modname)
+    sc = G.budget_scale(mod)
+    P = dict((k, G.scaled(v, sc)) for k, v in PARAMS[tier].items())
     rng = G.task_rng(seed, PROPERTY, modname, part)
     fnd, st = G.Findings(), G.Stats()
     rf = G.relfile(mod)
@@ -107,6 +108,30 @@ def _worker(task):
                         check('option:' + ','.join(sorted(kw)), y, kw)
         for y in common.mutations(rng, v, P['mutations']):
             check('mutation', y, {})
+    # separators/whitespace REPLACING a character (an inner validator may strip what the outer one keeps);
+    # with and without re-randomised digits so that a check digit can come out right by chance
+    seps = common.SEPARATORS + common.WHITESPACE
+    for idx, v in enumerate(valid):
+        if idx * nparts + part >= P['sepsubst']:
+            break
+        f = v
+        if compact is not None:
+            try:
+                c = compact(v)
+                if isinstance(c, str) and c:
+                    f = c
+            except Exception:   # noqa: B902
+                pass
+        digits = [j for j in range(len(f)) if f[j].isdigit()]
+        for i in range(len(f)):
+            for ch in seps:
+                y = f[:i] + ch + f[i + 1:]
+                check('sepsubst', y, {})
+                for _ in range(P['sepsubst_rand']):
+                    if digits:
+                        j = rng.choice(digits)
+                        if j != i:
+                            check('sepsubst', y[:j] + rng.choice('0123456789') + y[j + 1:], {})
     # second order: decorate accepted presentations again
     if accepted_pool:
         for _ in range(P['double'] // nparts + 1):
@@ -121,8 +146,7 @@ def search(seed, tier):
     t0 = time.time()
     names = [m.__name__ for m in common.number_modules()]
     tasks = [(n, p, k, seed, tier) for (n, p, k) in G.module_tasks(names, tier, 40)]
-    order = sorted(range(len(tasks)), key=lambda i: (-len(common.valid_numbers(tasks[i][0])), i))
-    results = G.run_tasks(_worker, [tasks[i] for i in order])
+    results = G.run_tasks(_worker, G.schedule(tasks))
     results.sort(key=lambda r: r['task'])
     res, _ = G.merge_results(PROPERTY, RULE, results, t0)
     return res
